@@ -16,16 +16,22 @@ import (
 
 	"github.com/nspcc-dev/neo-go/pkg/crypto/hash"
 	"github.com/nspcc-dev/neo-go/pkg/vm/stackitem"
+	"github.com/nspcc-dev/neofs-contract/common"
 
 	"verifharness/chainx"
 	"verifharness/hx"
 )
 
 type gen struct {
-	rng  *rand.Rand
-	w    *world
-	seen int // ledger.CurrentIndex() the FIRST update of the case will see
+	rng   *rand.Rand
+	w     *world
+	seen  int // ledger.CurrentIndex() the FIRST update of the case will see
+	count int // Netmap: forced snapshot count (0 = drawn)
 }
+
+// snapshotCounts: stored Netmap snapshot counts. updateSnapshotCount (since 0.15.1) allows 1..256; 10 is only the
+// default: below, at and above it, and the largest one-byte ring.
+var snapshotCounts = []int{1, 3, 7, 10, 11, 12, 20, 255}
 
 // upTo: a count in 0..n-1; three times as many in the thorough tier
 func (g *gen) upTo(n int) int {
@@ -318,12 +324,19 @@ func (g *gen) nodeInfo() []byte {
 func (g *gen) netmap() ([]chainx.KV, [][][]byte) {
 	w := g.w
 	s := fromScan(w.scan())
-	count := hx.Pick(g.rng, []int{10, 10, 3, 2, 1})
+	count := g.count
+	if count == 0 {
+		count = hx.Pick(g.rng, append([]int{10, 10}, snapshotCounts...))
+	}
 	for i := 0; i < 10; i++ {
 		delete(s, "snapshot_"+string([]byte{byte(i)}))
 	}
+	cur := g.rng.IntN(count)
+	if count > 10 && g.rng.IntN(2) == 0 {
+		cur = 10 + g.rng.IntN(count-10) // the current map itself lives above ring index 9
+	}
 	s["snapshotCount"] = encInt(big.NewInt(int64(count)))
-	s["snapshotCurrent"] = encInt(big.NewInt(int64(g.rng.IntN(count))))
+	s["snapshotCurrent"] = encInt(big.NewInt(int64(cur)))
 	s["snapshotEpoch"] = encInt(big.NewInt(int64(g.rng.IntN(70000))))
 	s["snapshotBlock"] = encInt(big.NewInt(int64(g.rng.IntN(100000))))
 	old := w.v < 16000
@@ -333,9 +346,22 @@ func (g *gen) netmap() ([]chainx.KV, [][][]byte) {
 		}
 		return stackitem.NewStruct([]stackitem.Item{bs(g.nodeInfo()), in(int64(1 + g.rng.IntN(3)))})
 	}
+	list := func(k int) []byte {
+		var nodes []stackitem.Item
+		for j := 0; j < k; j++ {
+			nodes = append(nodes, node())
+		}
+		return ser(stackitem.NewArray(nodes))
+	}
 	for i := 0; i < count; i++ {
-		if g.rng.IntN(6) == 0 {
-			continue // never written
+		if i >= 10 && i < 14 {
+			// ring indexes above the default count always hold a NON-EMPTY list: a migration that stops at the
+			// default count leaves them in the old format, and that must be visible
+			s["snapshot_"+string([]byte{byte(i)})] = list(1 + g.rng.IntN(2))
+			continue
+		}
+		if g.rng.IntN(6) == 0 || (count > 20 && g.rng.IntN(4) != 0) {
+			continue // never written (large rings are filled sparsely)
 		}
 		// k = 0: the EMPTY list, also in the pre-0.16 format (finding F20, repaired by f42319b, was about exactly
 		// this input: it is generated freely inside the monitored scope; young networks hold it in most slots)
@@ -343,11 +369,14 @@ func (g *gen) netmap() ([]chainx.KV, [][][]byte) {
 		if g.rng.IntN(4) == 0 {
 			k = 0
 		}
-		var nodes []stackitem.Item
-		for j := 0; j < k; j++ {
-			nodes = append(nodes, node())
+		s["snapshot_"+string([]byte{byte(i)})] = list(k)
+	}
+	if count < 10 && g.rng.IntN(2) == 0 {
+		// stale slots between the stored count and the default one (left by nothing the contract does, but the
+		// `< 0.16` loop is bounded by the stored count: it must not touch them; no getter reaches them)
+		for i := count; i < 10; i++ {
+			s["snapshot_"+string([]byte{byte(i)})] = list(1)
 		}
-		s["snapshot_"+string([]byte{byte(i)})] = ser(stackitem.NewArray(nodes))
 	}
 	for i, n := 0, g.upTo(4); i < n; i++ {
 		info := g.nodeInfo()
@@ -637,8 +666,12 @@ func roleFor(rng *rand.Rand, kind string, n int) []int {
 
 // runCase executes one generated case: raw load of the pre-upgrade storage, then updates.
 func runCase(t testing.TB, run *hx.Run, sc *chainx.Scratch, cs caseSpec, rng *rand.Rand, fixed []chainx.KV, fixedQ [][][]byte) {
+	runCaseWith(t, run, sc, cs, rng, fixed, fixedQ, 0)
+}
+
+func runCaseWith(t testing.TB, run *hx.Run, sc *chainx.Scratch, cs caseSpec, rng *rand.Rand, fixed []chainx.KV, fixedQ [][][]byte, snapCount int) {
 	w := startCase(t, run, sc, cs)
-	g := &gen{rng: rng, w: w}
+	g := &gen{rng: rng, w: w, count: snapCount}
 	// the sequence of the case is fixed before the storage is generated, so that the ballots can be
 	// placed relative to the height the first update that can pass the witness test will see
 	pre := rng.IntN(3) == 0 // an unauthorised attempt first
@@ -698,11 +731,28 @@ func runCase(t testing.TB, run *hx.Run, sc *chainx.Scratch, cs caseSpec, rng *ra
 
 var mainKinds = map[string]bool{"balance": true, "container": true, "netmap": true, "nns": true}
 
+// netmapCountCases: one in-quantifier Netmap case per stored snapshot count, from the oldest supported version (the
+// node structures are converted below 0.16 only), in every tier, shard and seed.
+func netmapCountCases(t testing.TB, run *hx.Run, sc *chainx.Scratch, ci int) int {
+	if common.PrevVersion >= 16000 {
+		return ci
+	}
+	for _, cnt := range snapshotCounts {
+		ci++
+		rng := run.Rand(2_000_000 + ci)
+		cs := caseSpec{id: fmt.Sprintf("s%d.%d.count%d", run.Seed, run.Shard, cnt), kind: "netmap",
+			n: hx.Pick(rng, []int{1, 3, 4, 7}), v: common.PrevVersion + rng.IntN(2), wf: true}
+		runCaseWith(t, run, sc, cs, rng, nil, nil, cnt)
+	}
+	return ci
+}
+
 func generate(t testing.TB, run *hx.Run, sc *chainx.Scratch) {
 	ci := 0
 	if run.Shard == 0 {
 		ci = dumpCases(t, run, sc)
 	}
+	ci = netmapCountCases(t, run, sc, ci)
 	for _, k := range allKinds {
 		reps := 1
 		if k == "neofs" || k == "processing" {
